@@ -213,6 +213,7 @@ def _run(ctx: Ctx) -> None:
     nvar = 1 if quick else 2
 
     dry_cache: dict = {}
+    ndry = [0]
     obs: list[dict] = []
     seed = [rng.randrange(1, 10 ** 6)]
 
@@ -239,10 +240,11 @@ def _run(ctx: Ctx) -> None:
             dkey = (kind, tuple(pay), g, thr, hd, c["eager"])
             if dkey not in dry_cache:
                 seed[0] += 1
+                ndry[0] += 1
                 d = Exec16(kind, pay, g, thr, None, None, hd, c["eager"], seed[0]).run()
-                dry_cache[dkey] = _landmarks(kind, pay, lk, d, hd)
                 if len(dry_cache) > 4000:
                     dry_cache.clear()
+                dry_cache[dkey] = _landmarks(kind, pay, lk, d, hd)
             lm = dry_cache[dkey]
             if lm is None or len(lm["wl"]) != len(exp["wl"]) or len(lm["el"]) != len(exp["el"]):
                 ctx.drift.append({"what": "dry run does not have the model's landmarks", "case": c,
@@ -255,8 +257,8 @@ def _run(ctx: Ctx) -> None:
                     res = ex.run()
                     key = [kind, pay, g, thr, hd, c["eager"], cw, ce]
                     _record(ctx, obs, key, c, lm, res, cw, ce, kind, c["eager"], hd is not None)
-    ctx.extra["dry_runs"] = len(dry_cache)
 
+    ctx.extra["dry_runs"] = ndry[0]
     judged = [{"case": o["case"], "obs": o["obs"]} for o in obs]
     bad = table.judge(ctx, "http", "Caps", judged, constants=cs)
     ctx.extra["observations"] = {
